@@ -4,6 +4,7 @@ import (
 	"bytes"
 	"context"
 	"fmt"
+	"go/types"
 	"os"
 	"os/exec"
 	"path/filepath"
@@ -135,6 +136,36 @@ func (e *Engine) buildPrelude(solver string) string {
 	fmt.Fprintf(&sb, "(define-fun iface_eq ((a Iface) (b Iface)) Bool (ite (and (= (ityp a) %d) (= (ityp b) %d)) (fp.eq (ifp a) (ifp b)) (= a b)))\n", f64tag, f64tag)
 	sb.WriteString(preludeAxioms)
 	sb.WriteString(seqNDecls())
+	// ptrelem(k): for the tag k of a pointer to a (never embedded) named struct type, the tag of that struct type; else 0.
+	// Used by the type facts of interface-typed program values (never as a statement about all values of sort Iface).
+	e.mu.Lock()
+	var ptags []int
+	for tag := range e.tagTy {
+		ptags = append(ptags, tag)
+	}
+	sort.Ints(ptags)
+	chain := "0"
+	for _, tag := range ptags {
+		pt, ok := e.tagTy[tag].Underlying().(*types.Pointer)
+		if !ok {
+			continue
+		}
+		nm, ok := pt.Elem().(*types.Named)
+		if !ok {
+			continue
+		}
+		if _, isStruct := nm.Underlying().(*types.Struct); !isStruct || e.embedded[types.TypeString(nm, nil)] {
+			continue
+		}
+		et, ok := e.tags[types.TypeString(nm, nil)]
+		if !ok {
+			continue
+		}
+		chain = fmt.Sprintf("(ite (= k %d) %d %s)", tag, et, chain)
+	}
+	e.mu.Unlock()
+	fmt.Fprintf(&sb, "(define-fun ptrelem ((k Int)) Int %s)\n", chain)
+	sb.WriteString("(define-fun iface_wf ((v Iface)) Bool (and (>= (ityp v) 0) (=> (= (ityp v) 0) (= v niliface)) (=> (> (ptrelem (ityp v)) 0) (or (= (iloc v) nullloc) (and (= (ltyp (iloc v)) (ptrelem (ityp v))) (= (lcell (iloc v)) 0) (> (lref (iloc v)) 0))))))\n")
 	// spec functions
 	for _, n := range e.specs.SFOrder {
 		sf := e.specs.SFuncs[n]
